@@ -32,6 +32,7 @@ InitOf(r) ==
 (* results of calls that return something *)
 RetOK(S1, r) ==
     /\ (r.op = "is_hidden" /\ r.b \in S1.ids) => (r.ret = (IF Visible(S1, r.b) THEN "false" ELSE "true"))
+    /\ (r.op = "mp_is_hidden") => (r.ret = (IF S1.mphid THEN "true" ELSE "false"))
     /\ (r.op = "upgrade" /\ r.b \in S1.ids /\ S1.bars[r.b].weak) => (r.ret = (IF S1.bars[r.b].alive THEN "some" ELSE "none"))
 
 (* getters after the call agree with the contract's logical state *)
@@ -52,7 +53,7 @@ GetOK(S1, r) ==
 (* MultiProgress) performs no terminal operation at all.                                *)
 SilentBar(S0, S1, r) ==
     \/ r.b \in S1.ids /\ ~Visible(S1, r.b) /\ (r.b \in S0.ids => ~Visible(S0, r.b))
-    \/ r.b = 0 /\ S1.mphid /\ r.op \in {"mp_println", "mp_clear", "mp_suspend", "mp_set_alignment"}
+    \/ r.b = 0 /\ S1.mphid /\ r.op \in {"mp_println", "mp_clear", "mp_suspend", "mp_set_alignment", "mp_is_hidden"}
 
 (* A finished, visible bar whose last handle is dropped stays on the terminal as it  *)
 (* is: what was painted last for it must be the rendering of its final state.        *)
